@@ -224,8 +224,8 @@ def run(run):
             last = p["path"][-1]
             Vp = nodes[last["a"]] - nodes[last["b"]]
             if odd or not last["eq"]:
-                run.inconclusive.append(f"{tag}/degenerate-path{pi_}: accepting path with a condition that is not "
-                                        "`variable == constant`; not compared with the textbook equation")
+                # stated, not decided: such a path is listed in the evidence (extra.degenerate_paths_not_compared)
+                run.extra.setdefault("degenerate_paths_not_compared", []).append(f"{tag}/path{pi_}")
                 continue
             Vs, Ss = xe.subst(ctx, [Vp, spec], mp)
             forced = {n_: int(c_.args[0]) % R for n_, c_ in mp.items()}
